@@ -69,6 +69,11 @@ impl ConnectionId {
     fn new(id: usize, ids: ConnectionIdManager) -> Self {
         Self(Arc::new(ConnectionIdInner::new(id, ids)))
     }
+
+    #[cfg(feature = "verif-hooks")]
+    pub(crate) fn number(&self) -> usize {
+        self.0.id()
+    }
 }
 
 impl PartialEq for ConnectionId {
